@@ -57,23 +57,31 @@ func Explore(bound int, maxSteps int, shard, nshards int, deadline time.Time, bo
 				return false
 			}
 		}
-		if used >= bound {
-			return true
-		}
 		for i := len(prefix); i < len(tr); i++ {
-			if DeviationFilter != nil && !DeviationFilter(tr[i]) {
+			// environment choices (vrt.Choose) are enumerated completely and cost no deviation
+			env := tr[i].Kind == "env"
+			if !env && (used >= bound || (DeviationFilter != nil && !DeviationFilter(tr[i]))) {
 				continue
 			}
+			cost := 1
+			if env {
+				cost = 0
+			}
 			for alt := 1; alt < tr[i].N; alt++ {
-				if depth == 0 && nshards > 1 && (i%nshards) != shard {
-					continue
+				if depth == 0 && nshards > 1 {
+					if env && (alt%nshards) != shard {
+						continue
+					}
+					if !env && (i%nshards) != shard {
+						continue
+					}
 				}
 				np := make([]int, 0, i+1)
 				for j := 0; j < i; j++ {
 					np = append(np, tr[j].Chosen)
 				}
 				np = append(np, alt)
-				if !rec(np, tr[:i+1], used+1, depth+1) {
+				if !rec(np, tr[:i+1], used+cost, depth+1) {
 					return false
 				}
 			}
